@@ -190,6 +190,50 @@ def encodeFit (o : Opts) (h : Hdr) (ms : List WMsg) : Bytes :=
 def encodeChain (o : Opts) (fits : List (Hdr × List WMsg)) : Bytes :=
   fits.flatMap (fun f => encodeFit o f.1 f.2)
 
+/-- `basetype.BaseType.Valid` -/
+def validBaseType (b : Nat) : Bool :=
+  b == 0x00 || b == 0x01 || b == 0x02 || b == 0x83 || b == 0x84 || b == 0x85 || b == 0x86 || b == 0x07 ||
+  b == 0x88 || b == 0x89 || b == 0x0A || b == 0x8B || b == 0x8C || b == 0x0D || b == 0x8E || b == 0x8F || b == 0x90
+
+/-! ### decidable forms of the well-formedness predicates used by the theorems (FitProps/WireLemmas.lean
+proves that they imply the propositional forms) -/
+
+def msgOKB (m : WMsg) : Bool :=
+  decide (m.num < 65536) && decide (m.fields.length ≤ 255) && decide (m.devs.length ≤ 255) &&
+  m.fields.all (fun f => decide (f.data.length ≤ 255) && validBaseType f.bt) &&
+  m.devs.all (fun d => decide (d.data.length ≤ 255))
+
+/-- split at the first field numbered 253 -/
+def splitTs : List WField → Option (List WField × WField × List WField)
+  | [] => none
+  | f :: fs =>
+    if f.num == tsFieldNum then some ([], f, fs)
+    else match splitTs fs with
+      | some (pre, g, post) => some (f :: pre, g, post)
+      | none => none
+
+def tsOKB (arch : Nat) (m : WMsg) : Bool :=
+  match splitTs m.fields with
+  | none => true
+  | some (_, f, post) =>
+    post.all (fun g => g.num != tsFieldNum) && f.tag == tagUint32 && (f.bt == 0x86 || f.bt == 0x8C) &&
+    match u32Of arch f.data with
+    | some v => decide (dateTimeMin ≤ v) && decide (v < u32Invalid)
+    | none => false
+
+def tsMonoB (arch : Nat) : Nat → List WMsg → Bool
+  | _, [] => true
+  | lo, m :: ms =>
+    tsOKB arch m && (tsOf arch m == u32Invalid || decide (lo ≤ tsOf arch m)) &&
+    tsMonoB arch (if tsOf arch m = u32Invalid then lo else tsOf arch m) ms
+
+def optsOKB (o : Opts) : Bool :=
+  (o.arch == 0 || o.arch == 1) && decide (0 < o.lruCap) && decide (o.lruCap ≤ 16) && (!o.compress || decide (o.lruCap ≤ 4))
+
+def fitOKB (o : Opts) (h : Hdr) (ms : List WMsg) : Bool :=
+  (h.size == 12 || h.size == 14) && decide (h.profileVer < 65536) && !ms.isEmpty && ms.all msgOKB &&
+  decide ((encodeMsgs o (freshEnc o) ms).length < 4294967296)
+
 /-! ### decoder framing -/
 
 structure FieldDef where
@@ -215,11 +259,6 @@ structure MesgDef where
 inductive Err
   | eof | notFit | crcMismatch | defMissing | invalidBaseType
   deriving DecidableEq, Repr, Inhabited
-
-/-- `basetype.BaseType.Valid` -/
-def validBaseType (b : Nat) : Bool :=
-  b == 0x00 || b == 0x01 || b == 0x02 || b == 0x83 || b == 0x84 || b == 0x85 || b == 0x86 || b == 0x07 ||
-  b == 0x88 || b == 0x89 || b == 0x0A || b == 0x8B || b == 0x8C || b == 0x0D || b == 0x8E || b == 0x8F || b == 0x90
 
 def parseFieldDefs : Nat → Bytes → Except Err (List FieldDef × Bytes)
   | 0, bs => .ok ([], bs)
